@@ -234,11 +234,15 @@ QueriesAgreeOn(st, W, Gs) ==
   /\ QHighest(st) = BFHighest(K)
   /\ QDim(st) = BFDim(K)
   /\ \A g \in Gs : QRange(st, g) = BFRange(K, g)
-(* every existing cell is emitted on save, exactly once; its row is known to the writer *)
+(* every existing cell's row is known to the writer; every cell with content (value or style) is emitted on
+   save exactly once under its own reference, a content-free cell may be emitted or left out (the real writer
+   leaves it out; the writer model here emits it), nothing else is emitted, nothing twice *)
 AllEmitted(st) ==
+  LET out == Emitted(st) IN
   /\ \A k \in Existing(st) : \E x \in Image(st.rows) : x.r = k[1]
-  /\ ToSet(Emitted(st)) = Existing(st)
-  /\ Len(Emitted(st)) = Cardinality(Existing(st))
+  /\ ToSet(out) \subseteq Existing(st)
+  /\ {k \in Existing(st) : ~Blank(st.map[k])} \subseteq ToSet(out)
+  /\ Len(out) = Cardinality(ToSet(out))
 
 (* ---- abstraction: the cell set of the reference grid (Sheet.tla) --------------- *)
 Abs(st) == {[r |-> k[1], c |-> k[2], v |-> st.map[k].v, s |-> st.map[k].s] : k \in DOMAIN st.map}
